@@ -146,10 +146,29 @@ func c08LookupField(st *types.Struct, name string) *types.Var {
 	return nil
 }
 
-// c08HasFieldOf: the struct has a field whose type is a pointer to pkg.name.
-func c08HasFieldOf(st *types.Struct, pkg, name string) bool {
+// c08DeepFields: the fields of a struct and, recursively, of the struct-typed fields (embedded or named, by value or
+// pointer) whose type is declared in the same package: state grouped into a nested struct keeps its role.
+func c08DeepFields(st *types.Struct, home *types.Package, depth int) []*types.Var {
+	var out []*types.Var
 	for i := 0; i < st.NumFields(); i++ {
-		if n := core.NamedOf(st.Field(i).Type()); n != nil && n.Obj().Pkg() != nil && n.Obj().Pkg().Path() == pkg && n.Obj().Name() == name {
+		f := st.Field(i)
+		out = append(out, f)
+		if depth >= 3 {
+			continue
+		}
+		if n := core.NamedOf(f.Type()); n != nil && n.Obj().Pkg() == home {
+			if inner, ok := n.Underlying().(*types.Struct); ok {
+				out = append(out, c08DeepFields(inner, home, depth+1)...)
+			}
+		}
+	}
+	return out
+}
+
+// c08HasFieldOf: the struct has (possibly in a nested struct of its own package) a field whose type is a pointer to pkg.name.
+func c08HasFieldOf(st *types.Struct, home *types.Package, pkg, name string) bool {
+	for _, f := range c08DeepFields(st, home, 0) {
+		if n := core.NamedOf(f.Type()); n != nil && n.Obj().Pkg() != nil && n.Obj().Pkg().Path() == pkg && n.Obj().Name() == name {
 			return true
 		}
 	}
@@ -245,14 +264,18 @@ func resolveC08(c *core.Ctx) *c08roles {
 		if !ok {
 			continue
 		}
-		if c08HasFieldOf(s, "encoding/xml", "Decoder") {
+		// a reader hands out nodes: it has the exported method Read (a nested state struct has not)
+		if c.MethodOfPkg(r.idr, t.Name(), "Read") == nil {
+			continue
+		}
+		if c08HasFieldOf(s, r.idr, "encoding/xml", "Decoder") {
 			if r.xmlReader != nil {
 				c.Unresolved("R08", "XML stream reader", "more than one struct of package idr holds an *xml.Decoder")
 				return nil
 			}
 			r.xmlReader = t
 		}
-		if c08HasFieldOf(s, "encoding/json", "Decoder") {
+		if c08HasFieldOf(s, r.idr, "encoding/json", "Decoder") {
 			if r.jsonReader != nil {
 				c.Unresolved("R08", "JSON stream reader", "more than one struct of package idr holds a *json.Decoder")
 				return nil
@@ -299,8 +322,8 @@ func (r *c08roles) newProv(c *core.Ctx) *c08Prov {
 		// a lookup in a map[string]string field of the XML stream reader: the namespace table
 		if f, _ := c04FieldLoad(l.X); f != nil {
 			if st, ok := r.xmlReader.Type().Underlying().(*types.Struct); ok {
-				for i := 0; i < st.NumFields(); i++ {
-					if st.Field(i) == f {
+				for _, sf := range c08DeepFields(st, r.idr, 0) {
+					if sf == f {
 						return "namespace table", true
 					}
 				}
@@ -566,13 +589,13 @@ func c08RuleB(c *core.Ctx, r *c08roles, prov *c08Prov) {
 	// (3) namespace table updates
 	var tableFld *types.Var
 	if st, ok := r.xmlReader.Type().Underlying().(*types.Struct); ok {
-		for i := 0; i < st.NumFields(); i++ {
-			if m, ok := st.Field(i).Type().Underlying().(*types.Map); ok && c08Textual(m.Key()) && c08Textual(m.Elem()) {
-				if tableFld != nil {
+		for _, sf := range c08DeepFields(st, r.idr, 0) {
+			if m, ok := sf.Type().Underlying().(*types.Map); ok && c08Textual(m.Key()) && c08Textual(m.Elem()) {
+				if tableFld != nil && tableFld != sf {
 					c.Unresolved("R08b", "namespace table", "more than one map[string]string field in the XML stream reader")
 					return
 				}
-				tableFld = st.Field(i)
+				tableFld = sf
 			}
 		}
 	}
